@@ -192,6 +192,12 @@ structure Facts (S : Schema) : Prop where
     o ∈ S.namedTypes ∧ ∃ ot, S.defn.lookup o = some ot ∧ ot.kind = .object ∧ i.name ∈ ot.ifaces
   implsComplete : ∀ i ∈ S.defn.types, i.kind = .interface → ∀ ot ∈ S.defn.types,
     ot.kind = .object → ot.name ∈ S.namedTypes → i.name ∈ ot.ifaces → ot.name ∈ S.implsOf i.name
+  ifaceKind : ∀ t ∈ S.defn.types, ∀ i ∈ t.ifaces, ∃ ti, S.defn.lookup i = some ti ∧ ti.kind = .interface
+  memberKind : ∀ t ∈ S.defn.types, ∀ m ∈ t.members, ∃ tm, S.defn.lookup m = some tm ∧ tm.kind = .object
+  rootKind : ∀ n ∈ optList S.defn.query ++ optList S.defn.mutation ++ optList S.defn.subscription,
+    ∃ tn, S.defn.lookup n = some tn ∧ tn.kind = .object
+  querySome : S.defn.query.isSome = true
+  builtinScalar : ∀ t ∈ S.defn.types, isBuiltin t.name = true → t.kind = .scalar
   shapeFields : ∀ t ∈ S.defn.types, t.kind ≠ .object → t.kind ≠ .interface → t.fields = []
   shapeIfaces : ∀ t ∈ S.defn.types, t.kind ≠ .object → t.ifaces = []
   shapeMembers : ∀ t ∈ S.defn.types, t.kind ≠ .union → t.members = []
@@ -222,10 +228,20 @@ theorem facts_of_accepted {S : Schema} (h : Accepted S) : Facts S := by
   have hf1 := hf
   obtain ⟨⟨hw1, hw2⟩, hw3⟩ := hwf.1
   have hw4 := hwf.2
-  have hshape := hk.2
+  obtain ⟨⟨⟨⟨hkinds, hroots⟩, hq⟩, hbs⟩, hshape⟩ := hk
+  have kindIs_of : ∀ (n : String) (k : Kind), S.defn.kindIs n k = true →
+      ∃ tn, S.defn.lookup n = some tn ∧ tn.kind = k := by
+    intro n k h
+    unfold SchemaDef.kindIs at h
+    cases hl : S.defn.lookup n with
+    | none => simp [hl] at h
+    | some tn => simp [hl] at h; exact ⟨tn, rfl, h⟩
   refine ⟨hw1, hw2, hw3, fun t ht => (hw4 t ht).1.1.1.1.1, fun t ht => (hw4 t ht).1.1.1.1.2,
     fun t ht => (hw4 t ht).1.1.1.2, fun t ht => (hw4 t ht).1.1.2, fun t ht => (hw4 t ht).1.2,
-    fun t ht => (hw4 t ht).2, h1, h2, h3, ?_, h4, ?_, ?_, ?_, ?_, ?_, ?_, ?_, ?_, ?_, ?_, ?_⟩
+    fun t ht => (hw4 t ht).2, h1, h2, h3, ?_, h4, ?_, ?_, ?_,
+    fun t ht i hi => kindIs_of i .interface ((hkinds t ht).1 i hi),
+    fun t ht m hm => kindIs_of m .object ((hkinds t ht).2 m hm),
+    fun n hn => kindIs_of n .object (hroots n hn), hq, ?_, ?_, ?_, ?_, ?_, ?_, ?_, ?_, ?_⟩
   · intro t ht hreg n hn
     rcases h5 t ht with h | h
     · exact absurd hreg h
@@ -248,6 +264,10 @@ theorem facts_of_accepted {S : Schema} (h : Accepted S) : Facts S := by
     · rcases h.2 ot hot with h' | h'
       · exact absurd hio (h' ⟨hko, hro⟩)
       · exact h'
+  · intro t ht hb
+    rcases hbs t ht with h | h
+    · rw [hb] at h; simp at h
+    · exact h
   · intro t ht h1 h2
     rcases (hshape t ht).1.1.1.1 with (h | h) | h
     · exact absurd h h1
@@ -730,6 +750,497 @@ theorem ids_cloneDef {b : Nat} {d : GDef} (hc : InspectClosed d) : ∀ n ∈ (cl
   · exact fresh_ge h
   · exact fresh_ge h
   · exact ids_cloneDirectiveDef _ n hn
+
+
+theorem visible_closed' {S : Schema} (h : Accepted S) (hd : DirArgsUngated S) (F : List String) :
+    ClosedV (visible S F) := by
+  have hf := facts_of_accepted h
+  constructor
+  · intro u hu n hn
+    simp only [visible, List.mem_map, List.mem_filter] at hu
+    obtain ⟨t, ⟨ht, hv⟩, rfl⟩ := hu
+    have hreg := reg_of_visibleName hv
+    have htF := visible_feat hf ht hv
+    apply mem_visible_names hf
+    rcases mem_refNames hn with ⟨f, hfm, hcase⟩ | ⟨a, ha, rfl⟩ | hi | hm
+    · -- a visible field of `t`, or one of its arguments
+      simp only [restrict, List.mem_filter] at hfm
+      obtain ⟨hfm, hfF⟩ := hfm
+      have hkind : t.kind = .object ∨ t.kind = .interface := by
+        by_cases h1 : t.kind = .object
+        · exact Or.inl h1
+        · by_cases h2 : t.kind = .interface
+          · exact Or.inr h2
+          · have := hf.shapeFields t ht h1 h2
+            rw [this] at hfm
+            cases hfm
+      have hff := hf.fieldFeat t ht hreg hkind f hfm
+      have hsub : subsetOf (f.feat.keys ++ t.feat.keys) F = true := subsetOf_append hfF htF
+      rcases hcase with rfl | ⟨a, ha, rfl⟩
+      · exact visibleName_of (hf.refsReg t ht hreg _ (mem_refNames_field hfm)) (subsetOf_trans hff.1 hsub)
+      · exact visibleName_of (hf.refsReg t ht hreg _ (mem_refNames_arg hfm ha)) (subsetOf_trans (hff.2 a ha) hsub)
+    · -- an input field
+      have ha' : a ∈ t.inputs := ha
+      have hkind : t.kind = .inputObject := by
+        by_cases h1 : t.kind = .inputObject
+        · exact h1
+        · have := hf.shapeInputs t ht h1
+          rw [this] at ha'
+          cases ha'
+      exact visibleName_of (hf.refsReg t ht hreg _ (mem_refNames_input ha'))
+        (subsetOf_trans (hf.inputFeat t ht hreg hkind a ha') htF)
+    · -- a visible interface
+      simp only [restrict, List.mem_filter] at hi
+      exact hi.2
+    · -- a union member
+      have hm' : n ∈ t.members := hm
+      have hkind : t.kind = .union := by
+        by_cases h1 : t.kind = .union
+        · exact h1
+        · have := hf.shapeMembers t ht h1
+          rw [this] at hm'
+          cases hm'
+      exact visibleName_of (hf.refsReg t ht hreg _ (mem_refNames_member hm'))
+        (subsetOf_trans (hf.memberFeat t ht hreg hkind n hm') htF)
+  · intro dd hdd a ha
+    apply mem_visible_names hf
+    have hdd' : dd ∈ S.defn.directives := hdd
+    apply visibleName_of (hf.dirArgsReg dd hdd' a ha)
+    rw [dirArgFeat_of hd dd hdd' a ha]
+    rfl
+
+
+
+
+/-! ### Rebuild: what survives the round trip through introspection data -/
+
+theorem nullableString_getD (s : String) : (nullableString s).getD "" = s := by
+  unfold nullableString
+  split
+  · rename_i h; simp [h]
+  · simp
+
+/-- A wrapper chain within the depth the query selects, over a listed type, is read back exactly. -/
+theorem getType_refData {ι : Type} (d : SchemaDef ι) (types : List (String × Kind)) (r : TRef) (k : Nat)
+    (hd : r.depth ≤ k) (hl : types.any (fun p => p.1 == r.leaf) = true) :
+    getType types (refData d k r) = .ok r := by
+  induction r generalizing k with
+  | named n =>
+    simp only [TRef.leaf] at hl
+    simp [refData, getType, hl]
+  | list t ih =>
+    cases k with
+    | zero => simp [TRef.depth] at hd
+    | succ k =>
+      have := ih k (by simp [TRef.depth] at hd; omega) (by simpa [TRef.leaf] using hl)
+      simp [refData, getType, this, Except.map]
+  | nonNull t ih =>
+    cases k with
+    | zero => simp [TRef.depth] at hd
+    | succ k =>
+      have := ih k (by simp [TRef.depth] at hd; omega) (by simpa [TRef.leaf] using hl)
+      simp [refData, getType, this, Except.map]
+
+/-- The documented truncation (query.go): a chain with more wrappers than the query selects comes
+    back with a missing `ofType`, which `getType` refuses. -/
+theorem getType_truncated {ι : Type} (d : SchemaDef ι) (types : List (String × Kind)) (r : TRef) (k : Nat)
+    (hd : k < r.depth) : ∃ e, getType types (refData d k r) = .error e := by
+  induction r generalizing k with
+  | named n => simp [TRef.depth] at hd
+  | list t ih =>
+    cases k with
+    | zero => exact ⟨_, by simp only [refData, getType]; rfl⟩
+    | succ k =>
+      obtain ⟨e, he⟩ := ih k (by simp [TRef.depth] at hd; omega)
+      exact ⟨e, by simp [refData, getType, he, Except.map]⟩
+  | nonNull t ih =>
+    cases k with
+    | zero => exact ⟨_, by simp only [refData, getType]; rfl⟩
+    | succ k =>
+      obtain ⟨e, he⟩ := ih k (by simp [TRef.depth] at hd; omega)
+      exact ⟨e, by simp [refData, getType, he, Except.map]⟩
+
+
+theorem mapExcept_map_ok {α β γ : Type} {f : α → Except String β} {g : γ → α} {h : γ → β} {l : List γ}
+    (H : ∀ x ∈ l, f (g x) = .ok (h x)) : mapExcept f (l.map g) = .ok (l.map h) := by
+  induction l with
+  | nil => rfl
+  | cons x xs ih =>
+    have h1 := H x List.mem_cons_self
+    have h2 := ih (fun y hy => H y (List.mem_cons_of_mem _ hy))
+    simp [mapExcept, h1, h2]
+
+theorem foldl_mapInsert_append {α : Type} (key : α → String) (l acc : List α)
+    (hn : ((acc ++ l).map key).Nodup) : l.foldl (mapInsert key) acc = acc ++ l := by
+  induction l generalizing acc with
+  | nil => simp
+  | cons x xs ih =>
+    have hx : (acc.any fun y => key y == key x) = false := by
+      rw [Bool.eq_false_iff]
+      intro h
+      simp only [List.any_eq_true, beq_iff_eq] at h
+      obtain ⟨y, hy, hk⟩ := h
+      simp only [List.map_append, List.map_cons, List.nodup_append, List.mem_map, List.mem_cons] at hn
+      exact hn.2.2 (key y) ⟨y, hy, rfl⟩ (key x) (Or.inl rfl) hk
+    have hstep : mapInsert key acc x = acc ++ [x] := by simp [mapInsert, hx]
+    rw [List.foldl_cons, hstep, ih (acc ++ [x]) (by simpa using hn)]
+    simp
+
+theorem foldl_mapInsert_nodup {α : Type} (key : α → String) (l : List α) (hn : (l.map key).Nodup) :
+    l.foldl (mapInsert key) [] = l := by
+  simpa using foldl_mapInsert_append key l [] (by simpa using hn)
+
+def Listed (types : List (String × Kind)) (n : String) : Prop := types.any (fun p => p.1 == n) = true
+
+theorem rebuildIV_ok (D : SchemaDef Unit) (types : List (String × Kind)) (a : InputValueDef Unit)
+    (hd : a.type.ref.depth ≤ typeRefLevels) (hl : Listed types a.type.ref.leaf) :
+    rebuildIV types (inputValueData D a) = .ok (forgetIV a) := by
+  simp [rebuildIV, inputValueData, getType_refData D types a.type.ref typeRefLevels hd hl, Except.map,
+    forgetIV, nullableString_getD]
+
+theorem rebuildIV0_ok (D : SchemaDef Unit) (types : List (String × Kind)) (a : InputValueDef0 Unit)
+    (hd : a.type.ref.depth ≤ typeRefLevels) (hl : Listed types a.type.ref.leaf) :
+    rebuildIV0 types (inputValueData0 D a) = .ok (forgetIV0 a) := by
+  simp [rebuildIV0, inputValueData0, getType_refData D types a.type.ref typeRefLevels hd hl, Except.map,
+    forgetIV0, nullableString_getD]
+
+theorem forgetIV_name (a : InputValueDef Unit) : (forgetIV a).name = a.name := rfl
+theorem forgetField_name (f : FieldDef Unit) : (forgetField f).name = f.name := rfl
+
+theorem rebuildField_ok (D : SchemaDef Unit) (types : List (String × Kind)) (f : FieldDef Unit)
+    (hd : f.type.ref.depth ≤ typeRefLevels) (hl : Listed types f.type.ref.leaf)
+    (hargs : ∀ a ∈ f.args, a.type.ref.depth ≤ typeRefLevels ∧ Listed types a.type.ref.leaf)
+    (hn : (f.args.map (·.name)).Nodup) :
+    rebuildField types (fieldData D f) = .ok (forgetField f) := by
+  have h1 := getType_refData D types f.type.ref typeRefLevels hd hl
+  have h2 : mapExcept (rebuildIV types) (f.args.map (inputValueData D)) = .ok (f.args.map forgetIV) :=
+    mapExcept_map_ok (fun a ha => rebuildIV_ok D types a (hargs a ha).1 (hargs a ha).2)
+  have h3 : (f.args.map forgetIV).foldl (mapInsert (·.name)) [] = f.args.map forgetIV :=
+    foldl_mapInsert_nodup _ _ (by simpa [List.map_map, Function.comp_def, forgetIV_name] using hn)
+  simp [rebuildField, fieldData, h1, h2, h3, forgetField, nullableString_getD]
+
+
+theorem kindOfName_kindName (k : Kind) : kindOfName (kindName k) = some k := by cases k <;> rfl
+
+/-- What the rebuild needs to know about one type of the visible schema, relative to the
+    name → kind table of the listed types. -/
+structure TypeOk (types : List (String × Kind)) (t : TypeDef Unit) : Prop where
+  fields : ∀ f ∈ t.fields, f.type.ref.depth ≤ typeRefLevels ∧ Listed types f.type.ref.leaf
+    ∧ (∀ a ∈ f.args, a.type.ref.depth ≤ typeRefLevels ∧ Listed types a.type.ref.leaf)
+    ∧ (f.args.map (·.name)).Nodup
+  fieldsNodup : (t.fields.map (·.name)).Nodup
+  inputs : ∀ a ∈ t.inputs, a.type.ref.depth ≤ typeRefLevels ∧ Listed types a.type.ref.leaf
+  inputsNodup : (t.inputs.map (·.name)).Nodup
+  valuesNodup : (t.values.map (·.name)).Nodup
+  ifaces : ∀ i ∈ t.ifaces, kindIn types i = some .interface
+  members : ∀ m ∈ t.members, kindIn types m = some .object
+
+theorem listed_of_kindIn {types : List (String × Kind)} {n : String} {k : Kind} (h : kindIn types n = some k) :
+    Listed types n := by
+  unfold kindIn at h
+  unfold Listed
+  cases hf : types.find? (fun p => p.1 == n) with
+  | none => simp [hf] at h
+  | some p =>
+    have h1 := List.mem_of_find?_eq_some hf
+    have h2 := List.find?_some hf
+    simp only [List.any_eq_true]
+    exact ⟨p, h1, h2⟩
+
+theorem namedOfKind_ok (D : SchemaDef Unit) (types : List (String × Kind)) (k : Kind) (msg n : String)
+    (h : kindIn types n = some k) : namedOfKind types k msg (namedRef D n) = .ok n := by
+  have hl : Listed types n := listed_of_kindIn h
+  have hg : getType types (namedRef D n) = .ok (.named n) :=
+    getType_refData D types (.named n) typeRefLevels (by simp [TRef.depth]) hl
+  simp [namedOfKind, hg, h]
+
+theorem rebuildType_ok (D V : SchemaDef Unit) (types : List (String × Kind)) (t : TypeDef Unit)
+    (hok : TypeOk types t) : rebuildType types (describeType D V t) = .ok (forgetType t) := by
+  unfold rebuildType forgetType
+  simp only [describeType_name]
+  by_cases hb : isBuiltin t.name = true
+  · simp [hb]
+  · simp only [hb, Bool.false_eq_true, if_false]
+    have hk : kindOfName (describeType D V t).kind = some t.kind := kindOfName_kindName t.kind
+    rw [hk]
+    have hfields : mapExcept (rebuildField types) (t.fields.map (fieldData D)) = .ok (t.fields.map forgetField) :=
+      mapExcept_map_ok (fun f hf => by
+        obtain ⟨h1, h2, h3, h4⟩ := hok.fields f hf
+        exact rebuildField_ok D types f h1 h2 h3 h4)
+    have hfold : (t.fields.map forgetField).foldl (mapInsert (·.name)) [] = t.fields.map forgetField :=
+      foldl_mapInsert_nodup _ _ (by simpa [List.map_map, Function.comp_def, forgetField_name] using hok.fieldsNodup)
+    cases hkind : t.kind with
+    | scalar => simp [shellType, describeType, nullableString_getD]
+    | object =>
+      have hif : mapExcept (namedOfKind types .interface "type is not an interface: ") (t.ifaces.map (namedRef D))
+          = .ok (t.ifaces.map id) :=
+        mapExcept_map_ok (fun i hi => namedOfKind_ok D types .interface _ i (hok.ifaces i hi))
+      simp [describeType, hkind, hfields, hif, hfold, forgetObject, shellType, nullableString_getD]
+    | interface =>
+      simp [describeType, hkind, hfields, hfold, forgetInterface, shellType, nullableString_getD]
+    | union =>
+      have hm : mapExcept (namedOfKind types .object "type is not an object: ") (t.members.map (namedRef D))
+          = .ok (t.members.map id) :=
+        mapExcept_map_ok (fun m hm => namedOfKind_ok D types .object _ m (hok.members m hm))
+      simp [describeType, hkind, hm, forgetUnion, shellType, nullableString_getD]
+    | «enum» =>
+      have hvals : ((t.values.map enumValueData).map fun v =>
+          ({ name := v.name, description := v.description.getD "", self := alloc,
+             deprecation := v.deprecationReason.getD "", dirs := nilDirs } : EnumValueDef Id))
+          = t.values.map forgetEnumValue := by
+        simp [List.map_map, Function.comp_def, enumValueData, forgetEnumValue, nullableString_getD]
+      have hvf : (t.values.map forgetEnumValue).foldl (mapInsert (·.name)) [] = t.values.map forgetEnumValue :=
+        foldl_mapInsert_nodup _ _ (by
+          simpa [List.map_map, Function.comp_def, forgetEnumValue] using hok.valuesNodup)
+      simp [describeType, hkind, hvals, hvf, forgetEnum, shellType, nullableString_getD]
+    | inputObject =>
+      have hin : mapExcept (rebuildIV types) (t.inputs.map (inputValueData D)) = .ok (t.inputs.map forgetIV) :=
+        mapExcept_map_ok (fun a ha => rebuildIV_ok D types a (hok.inputs a ha).1 (hok.inputs a ha).2)
+      have hinf : (t.inputs.map forgetIV).foldl (mapInsert (·.name)) [] = t.inputs.map forgetIV :=
+        foldl_mapInsert_nodup _ _ (by simpa [List.map_map, Function.comp_def, forgetIV_name] using hok.inputsNodup)
+      simp [describeType, hkind, hin, hinf, forgetInput, shellType, nullableString_getD]
+
+
+theorem forgetIV0_name (a : InputValueDef0 Unit) : (forgetIV0 a).name = a.name := rfl
+
+theorem rebuildDirective_ok (D : SchemaDef Unit) (types : List (String × Kind)) (dd : DirectiveDef Unit)
+    (hlocs : ∀ l ∈ dd.locs, l ∈ knownLocations)
+    (hargs : ∀ a ∈ dd.args, a.type.ref.depth ≤ typeRefLevels ∧ Listed types a.type.ref.leaf)
+    (hn : (dd.args.map (·.name)).Nodup) :
+    rebuildDirective types (directiveData D dd) = .ok (forgetDirective dd) := by
+  have hfind : dd.locs.find? (fun l => !knownLocations.contains l) = none := by
+    rw [List.find?_eq_none]
+    intro l hl
+    simp [hlocs l hl]
+  have hmap : mapExcept (rebuildIV0 types) (dd.args.map (inputValueData0 D)) = .ok (dd.args.map forgetIV0) :=
+    mapExcept_map_ok (fun a ha => rebuildIV0_ok D types a (hargs a ha).1 (hargs a ha).2)
+  have hfold : (dd.args.map forgetIV0).foldl (mapInsert (·.name)) [] = dd.args.map forgetIV0 :=
+    foldl_mapInsert_nodup _ _ (by simpa [List.map_map, Function.comp_def, forgetIV0_name] using hn)
+  unfold rebuildDirective
+  simp only [directiveData]
+  rw [hfind]
+  simp [hmap, hfold, forgetDirective, nullableString_getD]
+
+/-- The name → kind table `GetSchemaDefinition` builds from the listed types. -/
+def kindTable (L : List (TypeDef Unit)) : List (String × Kind) :=
+  L.map (fun t => (t.name, if isBuiltin t.name then Kind.scalar else t.kind))
+
+theorem describe_types_eq (D V : SchemaDef Unit) :
+    (describe D V).types = (sortDefs V.types).map (describeType D V) := by
+  unfold describe sortTypes sortDefs
+  simp only
+  rw [List.map_mergeSort (s := fun (a b : TypeD) => decide (a.name ≤ b.name))]
+  intro a _ b _
+  rfl
+
+theorem forgetDirective_name (x : DirectiveDef Unit) : (forgetDirective x).name = x.name := rfl
+
+/-- Everything `rebuild (describe D V)` needs, stated about the visible schema. -/
+structure RebuildOk (V : SchemaDef Unit) : Prop where
+  namesNodup : (V.types.map (·.name)).Nodup
+  typesOk : ∀ t ∈ V.types, TypeOk (kindTable (sortDefs V.types)) t
+  query : ∃ q, V.query = some q ∧ kindIn (kindTable (sortDefs V.types)) q = some .object
+  mutation : ∀ m, V.mutation = some m → kindIn (kindTable (sortDefs V.types)) m = some .object
+  subscription : ∀ s, V.subscription = some s → kindIn (kindTable (sortDefs V.types)) s = some .object
+  dirsNodup : (V.directives.map (·.name)).Nodup
+  dirs : ∀ dd ∈ V.directives, (∀ l ∈ dd.locs, l ∈ knownLocations)
+    ∧ (∀ a ∈ dd.args, a.type.ref.depth ≤ typeRefLevels ∧ Listed (kindTable (sortDefs V.types)) a.type.ref.leaf)
+    ∧ (dd.args.map (·.name)).Nodup
+
+theorem mem_sortDefs {l : List (TypeDef Unit)} {t : TypeDef Unit} : t ∈ sortDefs l ↔ t ∈ l :=
+  (List.mergeSort_perm l _).mem_iff
+
+theorem rebuild_describe (D V : SchemaDef Unit) (h : RebuildOk V) :
+    rebuild (describe D V) = .ok (forgetDef V) := by
+  have htypes := describe_types_eq D V
+  have hnd : nodupNames ((describe D V).types.map (·.name)) = true := by
+    rw [nodupNames_iff, htypes]
+    have hp : ((sortDefs V.types).map (describeType D V)).map (·.name) = (sortDefs V.types).map (·.name) := by
+      simp [List.map_map, Function.comp_def, describeType]
+    rw [hp]
+    have hperm : ((sortDefs V.types).map (·.name)).Perm (V.types.map (·.name)) :=
+      (List.mergeSort_perm V.types _).map _
+    rw [hperm.nodup_iff]
+    exact h.namesNodup
+  have htable : mapExcept tableEntry (describe D V).types = .ok (kindTable (sortDefs V.types)) := by
+    rw [htypes]
+    unfold kindTable
+    apply mapExcept_map_ok
+    intro t _
+    unfold tableEntry
+    simp only [describeType_name]
+    by_cases hb : isBuiltin t.name = true
+    · simp [hb]
+    · have : kindOfName (describeType D V t).kind = some t.kind := kindOfName_kindName t.kind
+      simp [hb, this]
+  have hts : mapExcept (rebuildType (kindTable (sortDefs V.types))) (describe D V).types
+      = .ok ((sortDefs V.types).map forgetType) := by
+    rw [htypes]
+    exact mapExcept_map_ok (fun t ht => rebuildType_ok D V _ t (h.typesOk t (mem_sortDefs.mp ht)))
+  have hds : mapExcept (rebuildDirective (kindTable (sortDefs V.types))) (describe D V).directives
+      = .ok (V.directives.map forgetDirective) := by
+    show mapExcept _ (V.directives.map (directiveData D)) = _
+    exact mapExcept_map_ok (fun dd hdd => rebuildDirective_ok D _ dd (h.dirs dd hdd).1 (h.dirs dd hdd).2.1 (h.dirs dd hdd).2.2)
+  have hdfold : (V.directives.map forgetDirective).foldl (mapInsert (·.name)) [] = V.directives.map forgetDirective :=
+    foldl_mapInsert_nodup _ _ (by simpa [List.map_map, Function.comp_def, forgetDirective_name] using h.dirsNodup)
+  obtain ⟨q, hq, hqk⟩ := h.query
+  have hroot : rootOf (kindTable (sortDefs V.types)) "query" q = .ok q := by simp [rootOf, hqk]
+  have hmut : optRoot (kindTable (sortDefs V.types)) "mutation" (describe D V).mutationType = .ok V.mutation := by
+    show optRoot _ _ V.mutation = _
+    cases hm : V.mutation with
+    | none => rfl
+    | some m => simp [optRoot, rootOf, h.mutation m hm, Except.map]
+  have hsub : optRoot (kindTable (sortDefs V.types)) "subcription" (describe D V).subscriptionType = .ok V.subscription := by
+    show optRoot _ _ V.subscription = _
+    cases hs : V.subscription with
+    | none => rfl
+    | some s => simp [optRoot, rootOf, h.subscription s hs, Except.map]
+  have hqt : (describe D V).queryType = some q := hq
+  unfold rebuild
+  rw [hnd]
+  simp only [Bool.not_true, Bool.false_eq_true, if_false]
+  rw [htable]
+  simp only
+  rw [hqt]
+  simp only
+  unfold rebuildWith
+  rw [hroot, hmut, hsub, hts, hds]
+  simp only [hdfold]
+  simp [forgetDef, hq]
+
+
+theorem find?_entry_of_nodup {M : List (TypeDef Unit)} (hn : (M.map (·.name)).Nodup) {t : TypeDef Unit} (ht : t ∈ M)
+    (entry : TypeDef Unit → String × Kind) (he : ∀ u, (entry u).1 = u.name) :
+    (M.map entry).find? (fun p => p.1 == t.name) = some (entry t) := by
+  induction M with
+  | nil => cases ht
+  | cons u us ih =>
+    simp only [List.map_cons, List.nodup_cons] at hn
+    rcases List.mem_cons.mp ht with rfl | ht
+    · simp [he]
+    · have hne : u.name ≠ t.name := by
+        intro h
+        exact hn.1 (h ▸ List.mem_map_of_mem (f := fun (x : TypeDef Unit) => x.name) ht)
+      have : ((entry u).1 == t.name) = false := by rw [he]; simpa using hne
+      simp [this, ih hn.2 ht]
+
+theorem sortDefs_names_perm (L : List (TypeDef Unit)) : ((sortDefs L).map (·.name)).Perm (L.map (·.name)) :=
+  (List.mergeSort_perm L _).map _
+
+theorem kindIn_kindTable {L : List (TypeDef Unit)} (hn : (L.map (·.name)).Nodup) {t : TypeDef Unit} (ht : t ∈ L) :
+    kindIn (kindTable (sortDefs L)) t.name = some (if isBuiltin t.name then Kind.scalar else t.kind) := by
+  unfold kindIn kindTable
+  have hn' : ((sortDefs L).map (·.name)).Nodup := (sortDefs_names_perm L).nodup_iff.mpr hn
+  rw [find?_entry_of_nodup hn' (mem_sortDefs.mpr ht) _ (fun _ => rfl)]
+  rfl
+
+theorem listed_kindTable {L : List (TypeDef Unit)} {n : String} (h : n ∈ L.map (·.name)) :
+    Listed (kindTable (sortDefs L)) n := by
+  unfold Listed kindTable
+  simp only [List.any_eq_true, List.mem_map, beq_iff_eq]
+  obtain ⟨t, ht, rfl⟩ := List.mem_map.mp h
+  exact ⟨_, ⟨t, mem_sortDefs.mpr ht, rfl⟩, rfl⟩
+
+/-- Guards of the rebuild round trip that `schema.New` does not establish. -/
+structure RebuildGuards (S : Schema) (F : List String) : Prop where
+  /-- wrapper chains stay within what the query selects (query.go) -/
+  fieldDepth : ∀ t ∈ S.defn.types, ∀ f ∈ t.fields, f.type.ref.depth ≤ typeRefLevels
+    ∧ ∀ a ∈ f.args, a.type.ref.depth ≤ typeRefLevels
+  inputDepth : ∀ t ∈ S.defn.types, ∀ a ∈ t.inputs, a.type.ref.depth ≤ typeRefLevels
+  dirDepth : ∀ dd ∈ S.defn.directives, ∀ a ∈ dd.args, a.type.ref.depth ≤ typeRefLevels
+  /-- directive locations are among the eighteen of the specification -/
+  locs : ∀ dd ∈ S.defn.directives, ∀ l ∈ dd.locs, l ∈ knownLocations
+  /-- the root operation types are visible to the request -/
+  roots : ∀ n ∈ optList S.defn.query ++ optList S.defn.mutation ++ optList S.defn.subscription,
+    subsetOf (S.defn.featuresOf n) F = true
+
+/-- A registered, visible name has its (restricted) definition in the visible schema. -/
+theorem visible_entry {S : Schema} (hf : Facts S) {F : List String} {n : String} {tn : TypeDef Unit}
+    (hl : S.defn.lookup n = some tn) (hv : visibleName S F n = true) :
+    restrict S F tn ∈ (visible S F).types ∧ (restrict S F tn).name = n ∧ (restrict S F tn).kind = tn.kind := by
+  obtain ⟨hmem, hname⟩ := lookup_some hl
+  refine ⟨?_, hname, rfl⟩
+  simp only [visible, List.mem_map, List.mem_filter]
+  exact ⟨tn, ⟨hmem, by rw [hname]; exact hv⟩, rfl⟩
+
+theorem kindIn_visible {S : Schema} (hf : Facts S) {F : List String} {n : String} {tn : TypeDef Unit}
+    (hl : S.defn.lookup n = some tn) (hv : visibleName S F n = true) (hk : tn.kind ≠ .scalar) :
+    kindIn (kindTable (sortDefs (visible S F).types)) n = some tn.kind := by
+  obtain ⟨hmem, hname, hkind⟩ := visible_entry hf hl hv
+  have := kindIn_kindTable (visible_types_nodup hf F) hmem
+  rw [hname, hkind] at this
+  rw [this]
+  have hnb : isBuiltin n = false := by
+    rw [Bool.eq_false_iff]
+    intro hb
+    obtain ⟨hm, hn⟩ := lookup_some hl
+    exact hk (hf.builtinScalar tn hm (by rw [hn]; exact hb))
+  simp [hnb]
+
+theorem rebuildOk_visible {S : Schema} (h : Accepted S) (hd : DirArgsUngated S) {F : List String}
+    (hg : RebuildGuards S F) : RebuildOk (visible S F) := by
+  have hf := facts_of_accepted h
+  have hc := visible_closed' h hd F
+  have hlisted : ∀ n, n ∈ (visible S F).types.map (·.name) → Listed (kindTable (sortDefs (visible S F).types)) n :=
+    fun n hn => listed_kindTable hn
+  have hrootk : ∀ n ∈ optList S.defn.query ++ optList S.defn.mutation ++ optList S.defn.subscription,
+      kindIn (kindTable (sortDefs (visible S F).types)) n = some .object := by
+    intro n hn
+    obtain ⟨tn, hl, hk⟩ := hf.rootKind n hn
+    have hreg : n ∈ S.namedTypes := hf.rootsReg n (by simp only [List.mem_append] at hn ⊢; exact Or.inl hn)
+    have := kindIn_visible hf hl (visibleName_of hreg (hg.roots n hn)) (by rw [hk]; decide)
+    rw [this, hk]
+  refine ⟨visible_types_nodup hf F, ?_, ?_, ?_, ?_, hf.dirsNodup, ?_⟩
+  · intro u hu
+    have hu' := hu
+    simp only [visible, List.mem_map, List.mem_filter] at hu'
+    obtain ⟨t, ⟨ht, hv⟩, rfl⟩ := hu'
+    have hreg := reg_of_visibleName hv
+    have hcl := hc.1 _ hu
+    refine ⟨?_, ?_, ?_, hf.inputsNodup t ht, hf.valuesNodup t ht, ?_, ?_⟩
+    · intro f hfm
+      have hfm0 : f ∈ t.fields := (List.mem_filter.mp hfm).1
+      refine ⟨(hg.fieldDepth t ht f hfm0).1, hlisted _ (hcl _ (mem_refNames_field hfm)), ?_, hf.argsNodup t ht f hfm0⟩
+      intro a ha
+      exact ⟨(hg.fieldDepth t ht f hfm0).2 a ha, hlisted _ (hcl _ (mem_refNames_arg hfm ha))⟩
+    · exact (hf.fieldsNodup t ht).sublist ((List.filter_sublist).map _)
+    · intro a ha
+      exact ⟨hg.inputDepth t ht a ha, hlisted _ (hcl _ (mem_refNames_input ha))⟩
+    · intro i hi
+      have hi0 : i ∈ t.ifaces ∧ visibleName S F i = true := by
+        simpa [restrict, List.mem_filter] using hi
+      obtain ⟨ti, hl, hk⟩ := hf.ifaceKind t ht i hi0.1
+      have := kindIn_visible hf hl hi0.2 (by rw [hk]; decide)
+      rw [this, hk]
+    · intro m hm
+      have hm0 : m ∈ t.members := hm
+      obtain ⟨tm, hl, hk⟩ := hf.memberKind t ht m hm0
+      have hvm : visibleName S F m = true := by
+        have hmem := hcl m (mem_refNames_member hm)
+        rw [visible_types_names] at hmem
+        obtain ⟨tv, htv, hname⟩ := List.mem_map.mp hmem
+        have := (List.mem_filter.mp htv).2
+        rw [hname] at this
+        exact this
+      have := kindIn_visible hf hl hvm (by rw [hk]; decide)
+      rw [this, hk]
+  · have hq := hf.querySome
+    cases hqq : S.defn.query with
+    | none => simp [hqq] at hq
+    | some q =>
+      refine ⟨q, hqq, hrootk q ?_⟩
+      simp [optList, hqq]
+  · intro m hm
+    have hm' : S.defn.mutation = some m := hm
+    exact hrootk m (by simp [optList, hm'])
+  · intro s hs
+    have hs' : S.defn.subscription = some s := hs
+    exact hrootk s (by simp [optList, hs'])
+  · intro dd hdd
+    have hdd' : dd ∈ S.defn.directives := hdd
+    refine ⟨hg.locs dd hdd', ?_, hf.dirArgsNodup dd hdd'⟩
+    intro a ha
+    exact ⟨hg.dirDepth dd hdd' a ha, hlisted _ (hc.2 dd hdd a ha)⟩
 
 
 end ApiFu.C10
